@@ -60,8 +60,24 @@ class Scratch:
 
     def __init__(self, tag: str):
         _LIVE_SCRATCH.append(self)
-        base = os.environ.get("VERIF_SCRATCH") or "/var/tmp"
-        os.makedirs(base, exist_ok=True)
+        # a base every user may pass through (servers under test drop to 'nobody' and must still reach their root)
+        base = None
+        for cand in (os.environ.get("VERIF_SCRATCH"), "/var/tmp", "/tmp"):
+            if not cand:
+                continue
+            try:
+                os.makedirs(cand, exist_ok=True)
+                p, ok = cand, os.access(cand, os.W_OK)
+                while ok and p != "/":
+                    ok = bool(os.stat(p).st_mode & 0o001)
+                    p = os.path.dirname(p)
+                if ok:
+                    base = cand
+                    break
+            except OSError:
+                continue
+        if base is None:
+            base = os.environ.get("VERIF_SCRATCH") or "/var/tmp"
         self.path = tempfile.mkdtemp(prefix="vf-%s-" % tag, dir=base)
 
     def sub(self, name: str) -> str:
@@ -71,11 +87,15 @@ class Scratch:
 
     def cleanup(self) -> None:
         def onerr(func, path, exc):
+            # make an unreadable piece of the scratch tree removable -- never touching anything outside it
             try:
-                os.chmod(os.path.dirname(path), 0o700)
-                os.chmod(path, 0o700)
+                parent = os.path.dirname(path)
+                if os.path.commonpath([os.path.realpath(parent), os.path.realpath(self.path)]) == os.path.realpath(self.path):
+                    os.chmod(parent, 0o700)
+                if path != self.path:
+                    os.chmod(path, 0o700)
                 func(path)
-            except OSError:
+            except (OSError, ValueError):
                 pass
 
         shutil.rmtree(self.path, onerror=onerr)
